@@ -212,6 +212,10 @@ func runC01(r *simkit.Run, c Cfg) {
 		j := tp.Choose(i+1, "optOrder")
 		sopts[i], sopts[j] = sopts[j], sopts[i]
 	}
+	if c.Case < 0 && tp.Chance(1, 4, "splitByHint") {
+		w.SplitByHint = true
+		r.Probe("store-split-by-schema-hint")
+	}
 	sub := w.NewSubscriber(sopts...)
 	if c.Case < 0 && tp.Chance(1, 4, "quietEnd") {
 		// the hook says nothing at the end of a chain, instead of naming
